@@ -166,8 +166,11 @@ fn gen_value(rng: &mut Rng, d: &InfoDef, n_alt: usize) -> Option<String> {
 
 pub fn generate(p: &VcfParams) -> VcfModel {
     let mut rng = Rng::new(p.seed);
+    // chromosome-sized contigs now and then: positions up to 5*10^8 give a tabix/CSI linear index of
+    // tens of thousands of 16 KiB windows (an index file of several BGZF blocks)
+    let big = p.seed % 6 == 0;
     let contigs: Vec<(String, usize)> = (0..p.n_contigs)
-        .map(|i| (format!("sq{i}"), 1000 + rng.usize_below(1_000_000)))
+        .map(|i| (format!("sq{i}"), if big { 100_000_000 + rng.usize_below(400_000_000) } else { 1000 + rng.usize_below(1_000_000) }))
         .collect();
     let n_info = if p.rich { 1 + rng.usize_below(INFOS.len()) } else { 2 };
     let n_fmt = if p.rich { 1 + rng.usize_below(FORMATS.len()) } else { 2 };
